@@ -105,6 +105,8 @@ def _lower(x):
 @_lower.register(Tensor)
 @_lower.register(Variable)
 def _lower_atom(x):
+    if isinstance(x, Tensor) and x.inputs:
+        raise NotImplementedError("TODO lower Tensor constants with named inputs")
     return x
 
 
